@@ -259,7 +259,10 @@ def _otc_calls(stmts):
 def pairing(ctx, res):
     repo = get_pyrepo(ctx)
     mod = repo.module(HT)
-    fn = repo.func(HT, "HasTraits.sync_trait")
+    from ..pyfacts import normalize_guards
+    # (helpers the branches were extracted into are inlined, their early
+    # returns becoming nested conditionals)
+    fn = repo.inlined(HT, "HasTraits.sync_trait")
     ps = [a.arg for a in fn.args.args]      # self, trait_name, object, alias, mutual, remove
     rm_if = [s for s in fn.body if isinstance(s, ast.If)
              and norm(s.test) == ps[5]]
@@ -300,7 +303,20 @@ def pairing(ctx, res):
         out = set()
         child, p_ = node, par.get(id(node))
         while p_ is not None and p_ is not fn:
-            if isinstance(p_, ast.If) and any(child is s_ for s_ in p_.body):
+            in_body = isinstance(p_, ast.If) and any(child is s_
+                                                     for s_ in p_.body)
+            in_else = isinstance(p_, ast.If) and any(child is s_
+                                                     for s_ in p_.orelse)
+            if in_else:
+                t = p_.test
+                if isinstance(t, ast.Compare) and len(t.ops) == 1 \
+                        and isinstance(t.ops[0], (ast.NotEq, ast.Gt)) \
+                        and norm(t.comparators[0]) == "0" \
+                        and norm(t.left).startswith("len("):
+                    out.add(norm(t.left)[4:-1])
+                elif isinstance(t, ast.Name):
+                    out.add(t.id)
+            if in_body:
                 t = p_.test
                 if isinstance(t, ast.Compare) and len(t.ops) == 1 \
                         and isinstance(t.ops[0], ast.Eq) \
